@@ -24,6 +24,7 @@ RULE = ("random commit graphs (6-16 commits, 8% extra roots, 30% merges incl. oc
         "unusual spellings (leading zeros, branch parts that only look like a release line); commit times anywhere in 0..30 days, not tied to the graph (heads older than the "
         "builds of lower-sorted branches by more than a day in ~25% of the cases; the window's edge values; 5% outside the "
         "window: compared with the model, not judged); exhaustive graphs of <=4 commits x 2 branches in thorough. "
+        "every history is reported twice by the same ReposCollection (the second answer must equal the first). "
         "non-trivial = at least one matching commit reachable from a release/master head; distinct by protocol line")
 TRUSTED = ["tests/mock_git.py (synthetic git objects fed to the real ak.ghist code)",
            "order of remote.refs (sorted by name, as mock_git and GitPython list them) — decides ties of equal sort keys only",
@@ -60,7 +61,15 @@ def run_real(h):
     repo = G.mock_repo(h, "r", TEXT)
     rc = ReposCollection({"r": k["StdTestRepo"]("r", repo, G.REMOTE)})
     data = rc.make_reports_data(TEXT)
+    # the collection can be asked again: the second answer must not depend on the first call
+    again = rc.make_reports_data(TEXT)
+    if _report_text(again[0][1]) != _report_text(data[0][1]):
+        raise SecondCallDiffers(_report_text(again[0][1]))
     return data[0][1]
+
+
+class SecondCallDiffers(Exception):
+    pass
 
 
 def impl(case):
@@ -410,7 +419,7 @@ def shrink(case):
     # simplify a commit
     for k in range(n):
         c = h["commits"][k]
-        for alt in ([dict(c, t=[])] if c["t"] else []) + ([dict(c, m=0)] if c["m"] else []) + \
+        for alt in ([dict(c, t=[], xt=[], names=None)] if c["t"] or c.get("xt") else []) + ([dict(c, m=0)] if c["m"] else []) + \
                    [dict(c, p=c["p"][:j] + c["p"][j + 1:]) for j in range(len(c["p"]))]:
             yield mk({"commits": h["commits"][:k] + [alt] + h["commits"][k + 1:], "refs": h["refs"]})
 
